@@ -40,16 +40,16 @@ type c28Chunk struct {
 }
 
 type c28Input struct {
-	Kind   string     `json:"kind"` // round | feed | proc | big
-	Size   int64      `json:"size,omitempty"`
-	Data   []byte     `json:"data,omitempty"`
-	Caps   []int      `json:"caps,omitempty"`
-	EOFWD  bool       `json:"eof_with_data,omitempty"`
-	Blocks []c28Block `json:"blocks,omitempty"` // kind round: the stream as blocks instead of Data
-	Wire   bool       `json:"wire,omitempty"` // pass each chunk through Marshal/UnmarshalLoadChunkRequest before dechunking
-	Chunks []c28Chunk `json:"chunks,omitempty"`
-	BigLen int        `json:"big_len,omitempty"` // kind big: data is generated from the seed, not stored
-	BigSeed int64     `json:"big_seed,omitempty"`
+	Kind    string     `json:"kind"` // round | feed | proc | big
+	Size    int64      `json:"size,omitempty"`
+	Data    []byte     `json:"data,omitempty"`
+	Caps    []int      `json:"caps,omitempty"`
+	EOFWD   bool       `json:"eof_with_data,omitempty"`
+	Blocks  []c28Block `json:"blocks,omitempty"` // kind round: the stream as blocks instead of Data
+	Wire    bool       `json:"wire,omitempty"`   // pass each chunk through Marshal/UnmarshalLoadChunkRequest before dechunking
+	Chunks  []c28Chunk `json:"chunks,omitempty"`
+	BigLen  int        `json:"big_len,omitempty"` // kind big: data is generated from the seed, not stored
+	BigSeed int64      `json:"big_seed,omitempty"`
 }
 
 // the io.Reader of Model.C28.reader
@@ -879,6 +879,95 @@ func c28GenProc(rng *rand.Rand) []c28Chunk {
 	return out
 }
 
+// structured streams at SQLite-like scales: 512/1024/4096-byte blocks that are zero-filled, constant-filled or
+// pseudo-random, zero runs at the start / in the middle / at the END, exact multiples of 4096 and of the chunk size and
+// one off, all-zero streams, and a real SQLite file padded with zero pages
+func c28BlockInputs(rng *rand.Rand) []c28Input {
+	var out []c28Input
+	sizes := []int64{1000, 1024, 4096, 4097, 8192, 16384, 65536, 100000}
+	blocksOf := func(maxLen int) []c28Block {
+		var bl []c28Block
+		total := 0
+		unit := []int{512, 1024, 4096}[rng.Intn(3)]
+		for total < maxLen {
+			n := unit * (1 + rng.Intn(4))
+			switch rng.Intn(4) {
+			case 0, 1:
+				bl = append(bl, c28Block{Kind: "zero", Len: n})
+			case 2:
+				bl = append(bl, c28Block{Kind: "const", Byte: byte(1 + rng.Intn(255)), Len: n})
+			default:
+				if n > 2048 {
+					n = 2048
+				}
+				bl = append(bl, c28Block{Kind: "rand", Seed: rng.Uint32() % 2147483648, Len: n})
+			}
+			total += n
+		}
+		return bl
+	}
+	emit := func(bl []c28Block, size int64) {
+		in := c28Input{Kind: "round", Size: size, Blocks: bl, EOFWD: rng.Intn(2) == 0, Wire: rng.Intn(3) == 0}
+		out = append(out, in)
+	}
+	z := func(n int) c28Block { return c28Block{Kind: "zero", Len: n} }
+	k := func(n int) c28Block { return c28Block{Kind: "const", Byte: 0x53, Len: n} }
+	// hand-picked
+	emit([]c28Block{z(4096)}, 4096)                            // one zero page
+	emit([]c28Block{z(8192)}, 1000)                            // all zero
+	emit([]c28Block{z(77824)}, 4096)                           // all zero, 19 pages
+	emit([]c28Block{k(12288), z(65536)}, 4096)                 // zero tail
+	emit([]c28Block{k(12288), z(65536)}, 100000)               // zero tail, one chunk
+	emit([]c28Block{k(100), z(4096)}, 1024)                    // unaligned zero tail
+	emit([]c28Block{z(4096), k(1)}, 4096)                      // zero page then a byte
+	emit([]c28Block{z(4095)}, 4096)                            // just under a page
+	emit([]c28Block{z(4097)}, 4096)                            // just over
+	emit([]c28Block{z(16384), k(4096), z(16384), k(10)}, 8192) // holes at start and middle
+	emit([]c28Block{{Kind: "file"}}, 4096)                     // a real SQLite database
+	emit([]c28Block{{Kind: "file"}, z(3 * 4096)}, 4096)        // ... followed by free (zero) pages
+	emit([]c28Block{{Kind: "file"}, z(5 * 4096)}, 1024)
+	emit([]c28Block{{Kind: "file"}, z(4096), {Kind: "file"}, z(8192)}, 16384)
+	emit([]c28Block{{Kind: "rand", Seed: 7, Len: 2000}, z(200 * 1024)}, 65536) // ~200 KiB
+	// generated
+	ng := vN(40, 600)
+	for i := 0; i < ng; i++ {
+		maxLen := 4096 * (1 + rng.Intn(10))
+		if i%10 == 0 {
+			maxLen = 4096 * (16 + rng.Intn(34)) // up to ~200 KiB
+		}
+		bl := blocksOf(maxLen)
+		switch rng.Intn(5) {
+		case 0, 1: // zero pages at the end
+			bl = append(bl, z(4096*(1+rng.Intn(4))))
+		case 2: // ... and one byte more / a page less one
+			bl = append(bl, z(4096*(1+rng.Intn(3))+1-2*rng.Intn(2)))
+		case 3:
+			bl = append([]c28Block{z(4096 * (1 + rng.Intn(3)))}, bl...)
+		}
+		total := 0
+		for _, b := range bl {
+			total += b.Len
+		}
+		var size int64
+		for {
+			size = sizes[rng.Intn(len(sizes))]
+			if rng.Intn(4) == 0 {
+				size += int64(rng.Intn(3) - 1)
+			}
+			if int64(total)/size*int64(total) <= 15000000 { // keeps the model's work (chunks x length) bounded
+				break
+			}
+		}
+		if rng.Intn(6) == 0 && total > 0 { // stream length an exact multiple of the chunk size
+			if pad := int(size) - total%int(size); pad != int(size) {
+				bl = append(bl, z(pad))
+			}
+		}
+		emit(bl, size)
+	}
+	return out
+}
+
 func TestVerif_C28(t *testing.T) {
 	w := vOpen()
 	defer w.Close()
@@ -895,13 +984,28 @@ func TestVerif_C28(t *testing.T) {
 
 	// hand-picked corpus
 	for _, eof := range []bool{false, true} {
-		c28Run(w, c28Input{Kind: "round", Size: 4, Data: []byte("abcdefgh"), EOFWD: eof})            // exact multiple
+		c28Run(w, c28Input{Kind: "round", Size: 4, Data: []byte("abcdefgh"), EOFWD: eof})             // exact multiple
 		c28Run(w, c28Input{Kind: "round", Size: 4, Data: []byte("abcdefgh"), EOFWD: eof, Wire: true}) // through the wire
-		c28Run(w, c28Input{Kind: "round", Size: 8, Data: []byte("abcdefgh"), EOFWD: eof})            // one full chunk
+		c28Run(w, c28Input{Kind: "round", Size: 8, Data: []byte("abcdefgh"), EOFWD: eof})             // one full chunk
 		c28Run(w, c28Input{Kind: "round", Size: 3, Data: []byte("abcdefgh"), EOFWD: eof})
-		c28Run(w, c28Input{Kind: "round", Size: 5, Data: nil, EOFWD: eof})                               // empty stream
+		c28Run(w, c28Input{Kind: "round", Size: 5, Data: nil, EOFWD: eof}) // empty stream
 		c28Run(w, c28Input{Kind: "round", Size: 4, Data: []byte("abcdefgh"), EOFWD: eof, Caps: []int{3, 3, 1}})
 		c28Run(w, c28Input{Kind: "round", Size: 4, Data: []byte("abcdefghijkl"), EOFWD: eof, Caps: []int{1, 9, 2, 2}})
+	}
+
+	// structured big streams; they are costly for the model and are therefore spread over the run (and so over the
+	// model shards): one after every `every` small cases
+	blocks := c28BlockInputs(rng)
+	small, every := 0, 40
+	if thorough {
+		every = 55
+	}
+	spread := func() {
+		small++
+		if small%every == 0 && len(blocks) > 0 {
+			c28Run(w, blocks[0])
+			blocks = blocks[1:]
+		}
 	}
 
 	// exhaustive: every string over {a,b} up to length L x chunk sizes 1..9 x both EOF behaviours
@@ -918,9 +1022,14 @@ func TestVerif_C28(t *testing.T) {
 			for size := int64(1); size <= 9; size++ {
 				for _, eof := range []bool{false, true} {
 					c28Run(w, c28Input{Kind: "round", Size: size, Data: data, EOFWD: eof, Wire: (bits+int(size))%2 == 0})
+					spread()
 				}
 			}
 		}
+	}
+
+	for _, in := range blocks {
+		c28Run(w, in)
 	}
 
 	// random long strings: exact multiples, one off, arbitrary; short reads; both EOF behaviours
@@ -950,92 +1059,6 @@ func TestVerif_C28(t *testing.T) {
 			}
 		}
 		c28Run(w, in)
-	}
-
-	// structured streams at SQLite-like scales: 512/1024/4096-byte blocks that are zero-filled, constant-filled or
-	// pseudo-random, zero runs at the start / in the middle / at the END, exact multiples of 4096 and of the chunk size and
-	// one off, all-zero streams, and a real SQLite file padded with zero pages
-	{
-		sizes := []int64{1000, 1024, 4096, 4097, 8192, 16384, 65536, 100000}
-		blocksOf := func(maxLen int) []c28Block {
-			var bl []c28Block
-			total := 0
-			unit := []int{512, 1024, 4096}[rng.Intn(3)]
-			for total < maxLen {
-				n := unit * (1 + rng.Intn(4))
-				switch rng.Intn(4) {
-				case 0, 1:
-					bl = append(bl, c28Block{Kind: "zero", Len: n})
-				case 2:
-					bl = append(bl, c28Block{Kind: "const", Byte: byte(1 + rng.Intn(255)), Len: n})
-				default:
-					if n > 2048 {
-						n = 2048
-					}
-					bl = append(bl, c28Block{Kind: "rand", Seed: rng.Uint32() % 2147483648, Len: n})
-				}
-				total += n
-			}
-			return bl
-		}
-		emit := func(bl []c28Block, size int64) {
-			c28Run(w, c28Input{Kind: "round", Size: size, Blocks: bl, EOFWD: rng.Intn(2) == 0, Wire: rng.Intn(3) == 0})
-		}
-		z := func(n int) c28Block { return c28Block{Kind: "zero", Len: n} }
-		k := func(n int) c28Block { return c28Block{Kind: "const", Byte: 0x53, Len: n} }
-		// hand-picked
-		emit([]c28Block{z(4096)}, 4096)                                     // one zero page
-		emit([]c28Block{z(8192)}, 1000)                                     // all zero
-		emit([]c28Block{z(77824)}, 4096)                                    // all zero, 19 pages
-		emit([]c28Block{k(12288), z(65536)}, 4096)                          // zero tail
-		emit([]c28Block{k(12288), z(65536)}, 100000)                        // zero tail, one chunk
-		emit([]c28Block{k(100), z(4096)}, 1024)                             // unaligned zero tail
-		emit([]c28Block{z(4096), k(1)}, 4096)                               // zero page then a byte
-		emit([]c28Block{z(4095)}, 4096)                                     // just under a page
-		emit([]c28Block{z(4097)}, 4096)                                     // just over
-		emit([]c28Block{z(16384), k(4096), z(16384), k(10)}, 8192)          // holes at start and middle
-		emit([]c28Block{{Kind: "file"}}, 4096)                              // a real SQLite database
-		emit([]c28Block{{Kind: "file"}, z(3 * 4096)}, 4096)                 // ... followed by free (zero) pages
-		emit([]c28Block{{Kind: "file"}, z(5 * 4096)}, 1024)
-		emit([]c28Block{{Kind: "file"}, z(4096), {Kind: "file"}, z(8192)}, 16384)
-		emit([]c28Block{{Kind: "rand", Seed: 7, Len: 2000}, z(200 * 1024)}, 65536) // ~200 KiB
-		// generated
-		ng := vN(40, 600)
-		for i := 0; i < ng; i++ {
-			maxLen := 4096 * (1 + rng.Intn(10))
-			if i%8 == 0 {
-				maxLen = 4096 * (16 + rng.Intn(34)) // up to ~200 KiB
-			}
-			bl := blocksOf(maxLen)
-			switch rng.Intn(5) {
-			case 0, 1: // zero pages at the end
-				bl = append(bl, z(4096*(1+rng.Intn(4))))
-			case 2: // ... and one byte more / a page less one
-				bl = append(bl, z(4096*(1+rng.Intn(3))+1-2*rng.Intn(2)))
-			case 3:
-				bl = append([]c28Block{z(4096 * (1 + rng.Intn(3)))}, bl...)
-			}
-			total := 0
-			for _, b := range bl {
-				total += b.Len
-			}
-			var size int64
-			for {
-				size = sizes[rng.Intn(len(sizes))]
-				if rng.Intn(4) == 0 {
-					size += int64(rng.Intn(3) - 1)
-				}
-				if int64(total)/size*int64(total) <= 40000000 { // keeps the model's work (chunks x length) bounded
-					break
-				}
-			}
-			if rng.Intn(6) == 0 && total > 0 { // stream length an exact multiple of the chunk size
-				if pad := int(size) - total%int(size); pad != int(size) {
-					bl = append(bl, z(pad))
-				}
-			}
-			emit(bl, size)
-		}
 	}
 
 	// chunk sizes beyond the 1 MiB internal buffer (several reads per chunk): oracle only, the bytes are not sent to the model
